@@ -32,6 +32,9 @@ CLAIMS = {
     "C10": ("model_checking", "MC_Run.tla parameter store (LatestOutcome, SubstitutionCommutes, error steps for use-before-measure / unbound) with symbolic histories executed against their numeric twins",
             "Affine and product expressions over a measured and a free parameter on X/Z/D gates (incl. a daggered one), measure / re-measure at another angle / re-prepare orders, bindings and re-bindings across segments and resets; each history runs symbolically (four call patterns incl. optimize) and as the numeric twin TLC emits; state, stored outcomes and the error class (ParameterError) are compared on gaussian, bosonic, fock.",
             "§5 C10", "2 modes, depth <= 4-5; outcomes forced by post-selection; TF tensors as parameters out of scope"),
+    "C11": ("model_checking", "MC_Merge.tla (exact net symplectic / displacement / transfer matrix on subsets of a large register; NetIsSymplectic, NetMatchesState, TransferUnitaryIfLossless, TransferMatchesSymp) compared entry-wise with what compile('gaussian_unitary' | 'passive') returns; hybrid gaussian_merge outputs judged by TLC's finite phase-space denotation (TraceOpt.tla)",
+            "TLC enumerates circuits with plain and inverse gates in both target orders on every 2-subset (thorough: + 3-subsets) of a 10-12-mode register and computes the exact net action on the used modes in ascending order; the compiled program's matrix parameters, registers and executed state are compared at 1e-9; the outcome must be an equivalent program or a CircuitError. 1500 (thorough 20000) random hybrid circuits with K/V/CK barriers are compiled with gaussian_merge and the projected output (exact rational recovery of the merged matrices) must have the source's finite phase-space denotation.",
+            "§5 C11", "lattice parameters; circuits of 2-3 operations for the exact part, 3-7 for the hybrid part; open findings on gaussian_merge's DAG surgery"),
     "C13": ("model_checking", "MC_TDM.tla (UnrollMeansLoop / SpaceMeansLoop on the model; history machine RollRestores, CacheCoherent) + every call history and forced-outcome run executed on TDMProgram / Engine",
             "TLC proves on the model, for single-band (N=2,3, incl. daggered and constant-parameter gates) and two-band templates, that register-shifting and space unrolling act on the same pulses with the same parameters and flags as the explicit loop, and emits the expected circuit after every history of unroll(1|2) / space_unroll(1) / roll calls (<= 3), the exact joint state of all pulses with measurements withheld, and the chain of conditional Born laws under forced outcomes; the harness executes every history (default and integer shift) and compares circuit, register and errors, runs with the generator intercepted (Born chain at every measurement, final window state, samples entry-wise by (shot, band, bin)), the space-unrolled run and the hand-written explicit loop.",
             "§5 C13", "Gaussian simulator; T = 3-6 bins; shift default / 1; space unrolling at shots = 1 (state equivalence is stated there)"),
